@@ -388,6 +388,46 @@ def case_case(rng, mode, op=None):
     return [" ".join(head + ents + ["name:" + vf.hexs(name)])]
 
 
+def hsq_case(rng, mode):
+    """handshake (verify_name on or OFF, any connect path, optionally mutual), then the peer-certificate
+    query on the live connection for: the connected name itself, names derived from the certificate
+    (covered ones, de-wildcarded, case variants), unrelated and malicious-looking ones"""
+    r = rng.below(10)
+    if r < 6:
+        base = hs_case(rng, mode)
+    elif r < 8:
+        base = case_case(rng, mode, op="hs")
+    else:
+        base = long_case(rng, "hs", mode, maxname=200)
+    words = base[0].split()
+    ents, nameh = words[2:-1], words[-1][5:]
+    name = b"" if nameh == "-" else bytes.fromhex(nameh)
+    qs = [name]                                   # the very name given to tls_connect*
+    for n in entry_names(base[0]):
+        if b"\0" in n:
+            n = n.split(b"\0")[0]                  # what a naive reader of a malicious name would see
+        if n.startswith(b"*."):
+            n = rng.choice([b"h", b"www", b"H"]) + n[1:]
+        if n and len(n) <= 255:
+            qs.append(n)
+            if rng.chance(1, 2):
+                qs.append(swapcase(n))
+    qs.append(swapcase(name))
+    qs.append(rng.choice([b"other.example.org", b"a", b"1.2.3.4", b"::1", b" ", b"x." + name[:50]]))
+    if rng.chance(1, 3):
+        qs.append(rand_name(rng))
+    seen, ql = set(), []
+    for q in qs:
+        if q and b"\0" not in q and q not in seen:
+            seen.add(q)
+            ql.append(q)
+    ql = ql[:10]
+    if rng.chance(1, 2):                          # the connected name not always first
+        ql = ql[1:] + ql[:1]
+    flags = rng.choice("nnv") + rng.choice("sft") + (("m") if rng.chance(1, 3) else "")
+    return [" ".join(["hsq", mode, flags] + ents + ["q:" + vf.hexs(q) for q in ql] + [words[-1]])]
+
+
 def pton_cases(rng, mode, n):
     out = [["pton %s %s" % (mode, vf.hexs(s))] for s in IP_LITS]
     pal = [b"0", b"1", b"2", b"5", b"9", b".", b":", b"a", b"F", b"g", b" ", b"f"]
@@ -492,6 +532,11 @@ def tally(ck, impl_lines):
             continue
         if l.startswith("rc="):
             k = " ".join(l.split()[:2])
+        elif l.startswith("hs=") and " q=" in l:
+            a = l.split()
+            h["peer-query answers yes"] = h.get("peer-query answers yes", 0) + l.count("1")
+            h["peer-query answers no"] = h.get("peer-query answers no", 0) + l.count("0")
+            k = "peer-query " + a[0] + (" mutual" if " sq=" in l else "")
         elif l.startswith("hs="):
             k = l
         elif l.startswith("calls="):
@@ -577,7 +622,9 @@ def run(ck):
                       "tls_handshake / tls_write / tls_read calls after the first verdict, which must not change) and a "
                       "letter-case family (IPv6/IPv4-mapped literals in upper/lower/mixed case and equivalent spellings "
                       "against CN-only certificates, mixed-case DNS names) through tls_connect_socket, tls_connect_fds "
-                      "and tls_connect_servername (loopback TCP); plus the "
+                      "and tls_connect_servername (loopback TCP); a peer-query family (handshake with verify_name on or OFF, "
+                      "optionally mutual, then tls_peer_cert_contains_name on the live client / server connection for the "
+                      "connected name, names derived from the certificate, case variants, unrelated names); plus the "
                       "exhaustive set of (cert string, name) pairs over {a,b,*,.,-} (range-hash, as dNSName and as "
                       "CN); every case is run in mode g (platform inet_pton) and mode c (usual/socket_pton.c); "
                       "distinct_nontrivial = distinct op lines whose certificate carries at least one name (the pairs of "
@@ -599,7 +646,7 @@ def run(ck):
     corpus = vf.corpus_cases(PID)
     for mode in ("g", "c"):
         mine = [[l.replace(" @ ", " %s " % mode) for l in c] for c in corpus]
-        nfail += ck.compare_cases(hs[mode], dcmd, mine, label="corpus-" + mode)
+        nfail += par_compare(ck, hs[mode], dcmd, mine, "corpus-" + mode, chunk=1, workers=12)
 
     mark("corpus")
     # direct comparison of the inet_pton models
@@ -657,6 +704,12 @@ def run(ck):
     nfail += par_compare(ck, hs[plat], dcmd, ccases, "letter-case", nontrivial=nontrivial, chunk=25, workers=12)
     ck.sample(ccases[0][0])
     mark("letter-case")
+    # tls_peer_cert_contains_name on the live connection (client, and server when mutual), with
+    # verify_name on and OFF: the answer is the verdict for (certificate, queried name) alone
+    qcases = [hsq_case(rng, plat) for _ in range(ck.scale(300, 2000))]
+    nfail += par_compare(ck, hs[plat], dcmd, qcases, "peer-query", nontrivial=nontrivial, chunk=25, workers=12)
+    ck.sample(qcases[0][0])
+    mark("peer-query")
     ck.cov["traces_validated_against_impl"] = ck.cov["evaluations"]
     ck.cov["exhaustive"] = False
     if not ck.quick():
